@@ -31,22 +31,27 @@ def _c05_sites():
                     calls.append((stem, f.name, _ast.unparse(kws["avoid"]) if "avoid" in kws else ""))
                 if n.func.attr == "add" and isinstance(n.func.value, _ast.Name) and n.func.value.id == "module":
                     adders.add((stem, f.name))
-    sites = sorted(set((a, b) for a, b, _ in calls))
-    for s in sites:
-        if s not in known:
-            die(f"C05: flatname is called from {s[0]}.py:{s[1]}, a naming site the model does not cover")
-    for s in known:
-        if s not in sites:
-            die(f"C05: the naming site {s[0]}.py:{s[1]} no longer calls flatname")
+    # A naming site is identified by the PASS (file): helpers may be extracted or renamed inside a pass without changing
+    # which pass invents the name.  Fail closed when another file starts calling flatname, when a pass of the model stops
+    # calling it, or when a file outside the model inserts into a Module.
+    files = sorted(set(a for a, _, _ in calls))
+    known_files = sorted(set(a for a, _ in known))
+    for f in files:
+        if f not in known_files:
+            die(f"C05: flatname is called from {f}.py, a pass the naming model does not cover")
+    for f in known_files:
+        if f not in files:
+            die(f"C05: the pass {f}.py no longer calls flatname")
     for s in sorted(adders):
-        if s not in known:
-            die(f"C05: {s[0]}.py:{s[1]} inserts into a Module but is not a naming site of the model")
-    # cross-check against the live classes
+        if s[0] not in known_files:
+            die(f"C05: {s[0]}.py:{s[1]} inserts into a Module but is not a pass of the naming model")
+    # cross-check against the live classes: each pass of the model still is an ElabPass with a flatname method
     import importlib
-    for (stem, fname), cls in known.items():
+    for cls in sorted(set(known.values())):
+        stem = [a for (a, _), c in known.items() if c == cls][0]
         mod = importlib.import_module("hdl21.elab.passes." + stem)
-        if not callable(getattr(getattr(mod, cls, None), fname, None)):
-            die(f"C05: live class {cls} of hdl21.elab.passes.{stem} has no method {fname}")
+        if not callable(getattr(getattr(mod, cls, None), "flatname", None)):
+            die(f"C05: live class {cls} of hdl21.elab.passes.{stem} has no flatname")
     body = ("Definition c05_flatname_calls : list (string * string * string) :=\n  [" +
             ";\n   ".join(f"({cstr(a)}, {cstr(b)}, {cstr(c)})" for a, b, c in calls) + "].\n")
     emit("C05Sites", body)
